@@ -1,10 +1,12 @@
 pub mod crash;
+pub mod damage;
 pub mod session;
+pub mod wal;
 
 use crate::framework::CheckDef;
 
 pub fn all() -> Vec<CheckDef> {
-	vec![session::c01(), crash::c02(), crash::c03(), session::c04(), session::c05(), session::c06(), crash::c07(), session::c08(), session::c09(), session::c10(), session::c11(), session::c14(), session::c17()]
+	vec![session::c01(), crash::c02(), crash::c03(), session::c04(), session::c05(), session::c06(), crash::c07(), session::c08(), session::c09(), session::c10(), session::c11(), wal::c12(), session::c14(), damage::c16(), session::c17()]
 }
 
 pub fn find(id: &str) -> Option<CheckDef> {
